@@ -80,6 +80,7 @@ type Schema struct {
 	Vecs        []VecOpt   `json:"vecs,omitempty"`
 	BigValues   bool       `json:"big,omitempty"`
 	IDDV        bool       `json:"iddv,omitempty"` // the _id field carries doc values (consistent over the whole case)
+	WideDV      bool       `json:"wideDV,omitempty"` // doc-value option of the wide batches' field (consistent over the whole case)
 	nextID      int
 }
 
@@ -151,6 +152,7 @@ func GenSchema(t *rapid.T, o SchemaOpts) *Schema {
 	if o.Vectors != 2 {
 		s.IDDV = Chance(t, "idDV", 20)
 	}
+	s.WideDV = rapid.Bool().Draw(t, "wideDV")
 	return s
 }
 
@@ -417,6 +419,7 @@ func (s *Schema) GenBatch(t *rapid.T, label string, o BatchOpts) *spec.BatchSpec
 		if Chance(t, label+"wide", pct) {
 			b.Wide = GenWide(t, label+"w")
 			b.Wide.IDDV = s.IDDV
+			b.Wide.DV = s.WideDV // the doc-value option is a per-field (mapping level) property
 		}
 	}
 	return b
